@@ -144,7 +144,8 @@ class HplExpression(HplAstObject):
         return self.replace(is_self_reference, other)
 
     def replace_var_reference(self, alias: str, other: 'HplExpression') -> 'HplExpression':
-        return self.replace(lambda expr: is_var_reference(expr, alias=alias), other)
+        # child by child, so that a quantifier binding `alias` can keep its own occurrences
+        return self.reshape(lambda expr: expr.replace_var_reference(alias, other))
 
     def replace(
         self,
@@ -630,6 +631,12 @@ class HplQuantifier(HplExpression):
         if alias == self.variable:
             return True
         return any(expr.contains_definition(alias) for expr in self.children())
+
+    def replace_var_reference(self, alias: str, other: HplExpression) -> HplExpression:
+        if alias == self.variable:
+            # `@alias` below this quantifier is its bound variable, not a reference to be replaced
+            return self
+        return super().replace_var_reference(alias, other)
 
     def reshape(
         self,
